@@ -876,7 +876,14 @@ func (c *EvalCtx) localVar(name string) EV {
 			return EV{T: fr.load(val.Loc), Ty: a.Type().(*types.Pointer).Elem()}
 		}
 	}
-	c.fail("no local %q in scope", name)
+	var have []string
+	for v := range fr.env {
+		if a, ok := v.(*ssa.Alloc); ok {
+			have = append(have, a.Comment)
+		}
+	}
+	sort.Strings(have)
+	c.fail("no local %q in scope of %s (locals: %v)", name, fr.Fn.Name(), have)
 	return EV{}
 }
 
